@@ -7,11 +7,20 @@ def replay(path):
     own = 'VF_WORK' not in os.environ
     if own: os.environ['VF_WORK'] = '/dev/shm/vfwork.replay.%d' % os.getpid()
     try:
-        chk = props.PROPS[rec['property']]('thorough', 1)
+        chk = props.PROPS[rec['property']](rec.get('tier', 'thorough'), 1)
         for u in chk.units:
             if u.name == rec['program'] and u.be == rec['be']:
                 u.build_real()
-                rc, out = u.run_native(u.exe_real, rec['harness'], rec['inputs'], True)
+                # the harness is identified by its configuration (the index depends on the tier's enumeration)
+                hs = [i for i, ix in enumerate(u.index) if ix['conf'] == rec['conf']]
+                h = rec['harness'] if (not hs or rec['harness'] in hs) else hs[0]
+                if rec['label'].startswith('uninitialised-value'):
+                    # depends on an indeterminate value: shown by the MemorySanitizer build of the real TU
+                    rc, out = u.run_native_msan(h, rec['inputs'])
+                elif rec['label'].startswith('memory-safety'):
+                    rc, out = u.run_native_asan(h, rec['inputs'])
+                else:
+                    rc, out = u.run_native(u.exe_real, h, rec['inputs'], True)
                 print('replay %s on %s / %s, pre-state %s, prefix %s' % (rec['label'], rec['program'], rec['backend'], rec['conf'], rec['script']))
                 print('inputs (sel, kind, payload, guard mask, ...):', rec['inputs'][:8])
                 print(out)
